@@ -1,0 +1,64 @@
+//go:build verif
+
+// Machine-checked contracts for the evy command (property C18). Comment-only file read by /verif/bin/evyvc.
+
+package main
+
+// writeAtomically never touches the target except by one final rename of a completely written, closed temporary
+// file of the same directory that carries the target's permission bits; every failing step is reported.
+// Together with the trusted semantics of the os calls (Write/Close/Chmod act on the named file only, Rename
+// replaces the target atomically and keeps the source's mode) this gives: at every crash point and for every
+// failing call the target holds its complete old text or the complete new text, with unchanged permission bits.
+//@ func writeAtomically(b []byte, filename string) (err error)
+//@   props C18
+//@   let tmp = callres("CreateTemp", 1, 0).(*os.File)
+//@   let nw = ncalls("(*File).Write")
+//@   ensures[C18 temp-in-same-dir] ncalls("CreateTemp") == 1 && callarg("CreateTemp", 1, 0).(string) == filepath.Dir(filename)
+//@   ensures[C18 create-failure-reported] callres("CreateTemp", 1, 1) != nil ==> err != nil && nw == 0 && ncalls("Rename") == 0
+//@   ensures[C18 writes-go-to-temp] nw <= 1 && (nw == 1 ==> callarg("(*File).Write", 1, 0).(*os.File) == tmp && base(callarg("(*File).Write", 1, 1)) == base(b) && off(callarg("(*File).Write", 1, 1)) == off(b) && len(callarg("(*File).Write", 1, 1)) == len(b))
+//@   ensures[C18 rename-only-after-complete-write] ncalls("Rename") <= 1 && (ncalls("Rename") == 1 ==> nw == 1 && callres("(*File).Write", 1, 1) == nil && ncalls("(*File).Close") == 1 && callres("(*File).Close", 1, 0) == nil)
+//@   ensures[C18 rename-temp-onto-target] ncalls("Rename") == 1 ==> callarg("Rename", 1, 1).(string) == filename && callarg("Rename", 1, 0).(string) == callres("(*File).Name", ncalls("(*File).Name"), 0).(string)
+//@   ensures[C18 mode-preserved] ncalls("Rename") == 1 ==> ncalls("Stat") == 1 && callarg("Stat", 1, 0).(string) == filename && (callres("Stat", 1, 1) == nil ==> ncalls("Chmod") == 1 && callres("Chmod", 1, 0) == nil && callarg("Chmod", 1, 1).(os.FileMode) == callres("(FileMode).Perm", 1, 0).(os.FileMode) && callarg("(FileMode).Perm", 1, 0).(os.FileMode) == callres("(FileInfo).Mode", 1, 0).(os.FileMode) && callarg("(FileInfo).Mode", 1, 0) == callres("Stat", 1, 0))
+//@   ensures[C18 success-iff-renamed] err == nil <==> ncalls("Rename") == 1 && callres("Rename", 1, 0) == nil
+//@   modifies class os., class fs.
+
+// The sentinel errors are created once at start-up and never reassigned.
+//@ global errParse != nil && errNotFormatted != nil && errBadWriteFlag != nil && errParse != errNotFormatted
+
+// The command-line flags of `evy fmt` are set by the option parser before Run and not written afterwards;
+// formatting one source text does not touch the archive it came from.
+//@ frameset fmtFlags = main.fmtCmd.Write, main.fmtCmd.Check, main.fmtCmd.Files, txtar.Archive
+
+// format parses first; text that does not parse yields an error that wraps errParse and no formatted text.
+// In check mode the error is nil exactly when the input parses and is already in formatted form.
+//@ func format(b []byte, checkOnly bool) (out string, err error)
+//@   props C18
+//@   let perr = callres("Parse", 1, 1)
+//@   ensures[C18 parse-first] ncalls("Parse") == 1 && (perr != nil ==> err != nil && wraps(err, errParse) && out == "" && ncalls("(*Program).Format") == 0)
+//@   ensures[C18 formatted-text] err == nil ==> ncalls("(*Program).Format") == 1 && out == callres("(*Program).Format", 1, 0).(string)
+//@   ensures[C18 check-tells-truth] checkOnly && perr == nil ==> ((err == nil) <==> (callarg("Parse", 1, 0).(string) == callres("(*Program).Format", 1, 0).(string))) && (err != nil ==> err == errNotFormatted)
+//@   ensures[C18 no-check-no-complaint] !checkOnly && perr == nil ==> err == nil
+//@   modifies allbut fmtFlags
+
+// fmtEvyFile writes only after a successful format and only with --write; a file that cannot be read or does
+// not parse is left untouched and a non-nil error is returned.
+//@ func (c *fmtCmd) fmtEvyFile(filename string) (err error)
+//@   props C18
+//@   ensures[C18 read-failure] callres("ReadFile", 1, 1) != nil ==> err != nil && ncalls("format") == 0 && ncalls("writeAtomically") == 0
+//@   ensures[C18 bad-source-untouched] ncalls("format") == 1 && callres("format", 1, 1) != nil ==> err != nil && ncalls("writeAtomically") == 0
+//@   ensures[C18 check-mode-passed-on] ncalls("format") == 1 ==> callarg("format", 1, 1).(bool) == old(c.Check)
+//@   ensures[C18 write-only-if-asked] ncalls("writeAtomically") <= 1 && (ncalls("writeAtomically") == 1 ==> old(c.Write) && callarg("writeAtomically", 1, 1).(string) == filename && err == callres("writeAtomically", 1, 0))
+//@   ensures[C18 no-write-flag-no-write] !old(c.Write) ==> ncalls("writeAtomically") == 0
+//@   modifies everything
+
+// fmtTxtarFile formats every embedded .evy file first and writes the archive back only when all of them parsed.
+//@ func (c *fmtCmd) fmtTxtarFile(filename string) (err error)
+//@   props C18
+//@   ensures[C18 read-failure] callres("ReadFile", 1, 1) != nil ==> err != nil && ncalls("writeAtomically") == 0
+//@   ensures[C18 write-last] ncalls("writeAtomically") <= 1 && (ncalls("writeAtomically") == 1 ==> old(c.Write) && callarg("writeAtomically", 1, 1).(string) == filename && err == callres("writeAtomically", 1, 0))
+//@   ensures[C18 bad-source-untouched] ncalls("format") >= 1 && callres("format", ncalls("format"), 1) != nil ==> err != nil && ncalls("writeAtomically") == 0
+//@   ensures[C18 no-write-flag-no-write] !old(c.Write) ==> ncalls("writeAtomically") == 0
+//@   modifies everything
+//@   loop 1 modifies allbut fmtFlags
+//@   loop 1 invariant ncalls("writeAtomically") == 0 && ncalls("ReadFile") == 1 && callres("ReadFile", 1, 1) == nil && archive != nil && -1 <= rangeindex && rangeindex < len(archive.Files)
+//@   loop 1 invariant forall(j, int, 1 <= j && j <= ncalls("format") ==> callres("format", j, 1) == nil)
